@@ -4,17 +4,44 @@ from lib.emit import emit_stream
 CHECK = Check(
     "C12",
     streams=[emit_stream("c12", drv="c12")],
-    rule=("generated inspectors of the model's emit units x value variants x selected paths (empty, resolving, first of every "
-          "failing class) x {Get, GetTo, Compare x2, Loop, Length, Capacity} grouped over the forms T, *T, **T with a dump of "
-          "every argument before and after every call; per value DeepEqual pairs, Copy, CopyTo's source grouped the same way, "
-          "Reset and CopyTo's destination by value and through *T / **T; per unit every operation with a foreign argument "
-          "and with the nil forms; distinct = distinct input text, all non-trivial."),
-    assumptions=[],
+    rule=("generated inspectors of the model's emit units (quick: every third supported unit of the representative shape set + "
+          "multi-field structs; thorough: every supported depth<=2 unit) x value variants (pointers nil/set, collections "
+          "nil/empty/1/3 elements, boundary scalars) x selected paths (the empty path, up to three resolving paths, and the first "
+          "path of every failing class: unknown field, absent key, unparsable segment, index -1/len/len+1/huge, nil pointer on "
+          "the way, past a scalar) x {Get, GetTo, Compare (two operand/operator pairs), Loop (scripted iterator), Length, "
+          "Capacity}: ONE grouped case runs every operation by value, by pointer and by pointer-to-pointer through a proxy "
+          "inspector that dumps every argument before and after every call (observation: agree bits per operation, "
+          "argument-unchanged bit per form; Get/GetTo compared without the liveness bit), plus the same operations once by "
+          "value (every case) and by pointer-to-pointer (every third) against the model's answer in that form; per value: "
+          "DeepEqual (independent copy, same object, two one-position mutations; the other operand's form rotating), Copy, "
+          "CopyTo's source (destination *T zero / **T emptied) grouped and single; Reset and CopyTo's destination by value "
+          "(must-be-pointer, dump unchanged; source in each of the three forms) and through *T / **T; per unit: every "
+          "operation with a foreign argument in every argument position (demand: a refusal the signature can express, dump of "
+          "all arguments unchanged) and with a typed-nil *T, a **T to nil, a nil **T and the nil interface; distinct = distinct "
+          "input text, all non-trivial."),
+    assumptions=["'never modifies the value it reads' is observed as: the canonical dump (no capacities, no addresses) of every "
+                 "argument is the same before and after every call; writes into spare capacity or that restore the old "
+                 "content would not be seen",
+                 "the by-value root object is a copy: a Get/GetTo reference into it is compared by what it denotes, the "
+                 "liveness bit is predicted per form by the model",
+                 "the model's purity statement is structural (Model/Api.exec returns the argument for every read call): that "
+                 "the generated code has no store through a read argument is established by the stream, not by a theorem",
+                 "Set by value (writes into a copy; nested maps and slices are shared) is outside the property and not run"],
 )
 
 MANIFEST = {
     "category": "proof",
-    "text": "",
-    "note": "",
-    "technique": "Rocq proof + extracted-model correspondence on generated inspectors",
+    "text": ("Rocq theorems over the models of all generated methods under one signature (Model/Api.exec: answer + argument "
+             "afterwards), for every node, value, path, operand, iterator script and option set without premises: the answers by "
+             "value, by pointer and by pointer-to-pointer coincide (Get/GetTo: same error and a reference to the same value at "
+             "the same access path, by induction on the node tree; a by-value reference is a copy exactly inside the copied root "
+             "object); read calls return the argument unchanged and a changed argument implies Reset/Set/CopyTo-destination; "
+             "Reset and CopyTo's destination by value give the must-be-pointer error and change nothing; a foreign argument is "
+             "refused per operation (no effect / unsupported-type error / false) in every argument position; nil pointer "
+             "arguments are handled like the nil interface and no header panics (after four fix: commits). Correspondence: every "
+             "grouped case runs the real generated methods in the three forms and compares answers and argument dumps."),
+    "note": ("Trusted: Coq kernel, extraction, Go harness (reflection value builder, proxy inspector, canonical dumps), Go compiler. "
+             "The models take the value tree, so purity of reads is structural in the model; the stream's before/after dumps carry "
+             "that clause for the real code. No axioms."),
+    "technique": "Rocq proof (induction on the type tree for Get; case analysis on argument forms) + extracted-model correspondence on generated inspectors in all argument forms",
 }
